@@ -777,7 +777,12 @@ fn check_result(w: &mut World, book: &mut Book, id: SddId, exp: Tab, api: &str, 
                 }
             }
         }
-        if depth.grad {
+        // a registered variable must have its weights in the manager's tables (public accessors)
+        let short = reg.iter().any(|&s| (w.slot_var[s] as usize) >= w.mgr.pos_weight().len() || (w.slot_var[s] as usize) >= w.mgr.neg_weight().len());
+        if short {
+            probs.push((json!({"kind": "registered_variable_has_no_weight_entry", "context": context}), json!({"registered": reg.iter().map(|&s| w.slot_var[s]).collect::<Vec<_>>(), "pos_weight_len": w.mgr.pos_weight().len(), "neg_weight_len": w.mgr.neg_weight().len()})));
+        }
+        if depth.grad && !short {
             let before: Vec<(f64, f64)> = reg.iter().map(|&s| (w.mgr.pos_weight()[w.slot_var[s] as usize], w.mgr.neg_weight()[w.slot_var[s] as usize])).collect();
             let mgr = &mut w.mgr;
             match guard(|| wmc_gradient(mgr, id)) {
